@@ -6,7 +6,7 @@
    vectors, the key generator kg, the embedding model emb, max_batch_size, the cache mode, the
    initial store, the schedule. *)
 From Coq Require Import List Bool Arith.
-From NG Require Import Gen.C19Consts Svc.EmbCache Svc.EmbCache_proofs Svc.Batch Svc.Batch_proofs
+From NG Require Import Gen.C19Consts Svc.EmbCache Svc.EmbCache_proofs Svc.Emb_now Svc.Batch Svc.Batch_proofs
                        Svc.Batch_live Svc.Batch_examples.
 Import ListNotations.
 
@@ -76,12 +76,58 @@ Theorem C19_cache_collision_refuted :
 Proof. exact cache_collision. Qed.
 Print Assumptions C19_cache_collision_refuted.
 
-(* several indexes in one process, each with its own key generator, model and cache
-   configuration: if configurations that name the same store agree on key generator and model
+(* (T) the cache keys of the current source contain the identity of the index's embedding
+   model (read from cache.py by the translator) *)
+Theorem C19_cache_key_includes_model_in_source : cache_key_includes_model = true.
+Proof. exact includes_now. Qed.
+Print Assumptions C19_cache_key_includes_model_in_source.
+
+(* several indexes alive in one process, any assignment of cache configurations to stores
+   (shared default folder included), keying AS IN THE CURRENT SOURCE: if the key generators in
+   play are injective on (model identity, text) and the model identity determines the model,
+   then after any interleaved history every index gets ITS OWN model's vectors.  No
+   "different models use different stores" hypothesis. *)
+Theorem C19_cache_isolation :
+  forall (mid text key vec : Type)
+         (text_eq_dec : forall a b : text, {a = b} + {a <> b})
+         (key_eq_dec : forall a b : key, {a = b} + {a <> b})
+         (P : text -> Prop) (ks : list (kindex mid text key vec)),
+    pair_inj mid text key vec P ks -> mid_model mid text key vec ks ->
+    forall (history : list (kindex mid text key vec * list text)) (a : kindex mid text key vec)
+           (texts : list text),
+      Forall (fun c => In (fst c) ks /\ Forall P (snd c)) history -> In a ks -> Forall P texts ->
+      fst (mcall text_eq_dec key_eq_dec
+             (mrun text_eq_dec key_eq_dec no_stores
+                   (map (fun c => (index_now mid text key vec (fst c), snd c)) history))
+             (index_now mid text key vec a) texts)
+      = map (fun t => Some (kx_emb mid text key vec a t)) texts.
+Proof. exact isolation_now. Qed.
+Print Assumptions C19_cache_isolation.
+
+(* regression documentation: with the keying BEFORE the fix (text alone) two indexes sharing a
+   store and a key generator, with different models, are confused *)
+Theorem C19_cache_text_only_keys_refuted :
+  forall (mid text key vec : Type)
+         (text_eq_dec : forall a b : text, {a = b} + {a <> b})
+         (key_eq_dec : forall a b : key, {a = b} + {a <> b})
+         (a b : kindex mid text key vec) (t : text),
+    kx_sid mid text key vec a = kx_sid mid text key vec b ->
+    kx_gen mid text key vec a (None, t) = kx_gen mid text key vec b (None, t) ->
+    kx_emb mid text key vec a t <> kx_emb mid text key vec b t ->
+    fst (mcall text_eq_dec key_eq_dec
+           (mrun text_eq_dec key_eq_dec no_stores [(kx_index mid text key vec false a, [t])])
+           (kx_index mid text key vec false b) [t])
+    <> map (fun t => Some (kx_emb mid text key vec b t)) [t].
+Proof. exact keyed_text_only_refuted. Qed.
+Print Assumptions C19_cache_text_only_keys_refuted.
+
+(* (secondary form, true before and after the fix) several indexes in one process, each with
+   its own key generator, model and cache configuration: if configurations that name the same
+   store agree on key generator and model
    (distinct models => distinct stores; the harness checks that distinct cache_dirs are
    distinct stores in the implementation), then after any interleaved history of calls every
    index gets ITS model's vectors *)
-Theorem C19_cache_isolation :
+Theorem C19_cache_isolation_by_store :
   forall (text key vec : Type)
          (text_eq_dec : forall a b : text, {a = b} + {a <> b})
          (key_eq_dec : forall a b : key, {a = b} + {a <> b})
@@ -92,7 +138,7 @@ Theorem C19_cache_isolation :
       fst (mcall text_eq_dec key_eq_dec (mrun text_eq_dec key_eq_dec no_stores history) a texts)
       = map (fun t => Some (ix_emb a t)) texts.
 Proof. exact multi_correct. Qed.
-Print Assumptions C19_cache_isolation.
+Print Assumptions C19_cache_isolation_by_store.
 
 (* ... and the assumption is necessary: two indexes whose configurations name ONE store, with
    one key for a text and different models - the second index gets the first model's vector *)
